@@ -183,10 +183,11 @@ static void new_topology(unsigned npu, int dis) {
   if (hwloc_topology_load(T) < 0) { fprintf(stderr, "load failed\n"); exit(3); }
 }
 
+static unsigned long xml_export_flags;   /* 0 or HWLOC_TOPOLOGY_EXPORT_XML_FLAG_V2 (op xmlv2) */
 static int do_xml(void) {
   char *buf = NULL; int len = 0;
   hwloc_topology_t n;
-  if (hwloc_topology_export_xmlbuffer(T, &buf, &len, 0) < 0) return -1;
+  if (hwloc_topology_export_xmlbuffer(T, &buf, &len, xml_export_flags) < 0) return -1;
   hwloc_topology_init(&n);
   /* the importing topology is loaded with the same flags (INCLUDE_DISALLOWED keeps the disallowed PUs and the
    * exported allowed_cpuset) */
@@ -354,7 +355,8 @@ static void exec_line(const char *orig) {
     if (strict_allowed() && hwloc_cpukinds_get_nr(T, 0)) st_dup_strict++;
     fprintf(fout, "rc=%s ", rc < 0 ? "fail" : "ok");
     show_obs();
-  } else if (!strcmp(op, "xml")) {
+  } else if (!strcmp(op, "xml") || !strcmp(op, "xmlv2")) {
+    xml_export_flags = !strcmp(op, "xmlv2") ? HWLOC_TOPOLOGY_EXPORT_XML_FLAG_V2 : 0;     /* the legacy format carries the kinds too */
     int rc = do_xml();
     st_xml++;
     if (strict_allowed() && hwloc_cpukinds_get_nr(T, 0)) st_xml_strict++;
@@ -622,7 +624,7 @@ static void generate(unsigned long nops) {
         sprintf(line, "restrict %lx", m);
         exec_line(line);
       } else if (c < 78) exec_line("dup");
-      else if (c < 89) exec_line("xml");
+      else if (c < 89) { char l[8]; strcpy(l, rng_chance(35) ? "xmlv2" : "xml"); exec_line(l); }
       else if (c < 92) exec_line("refresh");
       else if (c < 96) { sprintf(line, "nr %lu", rng_chance(50) ? 0UL : 1UL << rng_below(3)); exec_line(line); continue; }
       else { sprintf(line, "info %u %lu", rng_below(6), rng_chance(75) ? 0UL : 1UL << rng_below(3)); exec_line(line); continue; }
